@@ -167,6 +167,9 @@ fn check_static_and_probes(ctx: &Ctx, ty: &str, w: &[f64]) {
         }
         prev_idx = idx;
     }
+    if w.len() == 3 && w.iter().any(|x| *x == 0.0) {
+        ctx.sample_tagged("boundary probes", || json!({"input": case.clone(), "probs": pr.probs, "variates_probed": probes.len()}));
+    }
     ctx.outcome("probed-vectors", 1);
 }
 
@@ -230,6 +233,7 @@ fn sweep_f32(ctx: &Ctx, w: &[f64]) {
             ctx.violation(mk("C16:law", format!("category {i}: {} of 2^24 variates ({freq}) but p = {}", counts[i], probs[i])));
         }
     }
+    ctx.sample_tagged("full 2^24 sweep", || json!({"input": case.clone(), "probs": probs, "count_per_category": counts}));
     ctx.distinct(hash_f64s("sweep", w) ^ hash_of(&counts));
 }
 
@@ -381,8 +385,6 @@ pub fn run(ctx: &Ctx) {
     // f64 strided sweeps (non-exhaustive, declared)
     let strided: Vec<Vec<f64>> = all_vectors(2, 3).into_iter().chain(below.iter().take(4).cloned()).collect();
     strided.par_iter().for_each(|w| strided_f64(ctx, w));
-    ctx.sample(json!({"sweep": {"ty": "f32", "weights": [3, 7, 7, 3, 3, 0], "variates": "k*2^-24 for k in 0..2^24"}}));
-    ctx.sample(json!({"probe": {"ty": "f64", "weights": [0, 1, 2], "variates": "0, 2^-53, cum_i +- 3*2^-53, 1-2^-53"}}));
     ctx.assume("f64: only boundary probes are exhaustive over their set; the 2^20 strided sweep is a sample of the 2^53 grid (declared non-exhaustive); the generator's uniformity itself is trusted");
     if ctx.outcome_count("full-2^24-sweeps") < 10 {
         ctx.machinery_error("vacuity guard: fewer than 10 full sweeps ran");
